@@ -308,6 +308,58 @@ func main() {
 			}
 		}
 	})
+	// a smoothed / chamfered corner whose NEXT vertex carries an arc: the arc still runs on the specified circle
+	// through the corner vertex and its own vertex (the fillet is fitted to the first arc facet afterwards)
+	for _, cfgA := range []struct{ a, p, b v2.Vec }{{v2.Vec{}, v2.Vec{X: 4}, v2.Vec{X: 6, Y: 3}}, {v2.Vec{X: -1, Y: 2}, v2.Vec{X: 3, Y: 1}, v2.Vec{X: 3, Y: -4}}, {v2.Vec{X: 0, Y: 5}, v2.Vec{}, v2.Vec{X: 5}}} {
+		for _, rm := range []float64{0.75, 1, 4} {
+			for _, sg := range []float64{1, -1} {
+				for _, f := range []int{3, 8} {
+					for _, kind := range []string{"Smooth", "Chamfer"} {
+						a, pc, b := cfgA.a, cfgA.p, cfgA.b
+						d := norm(sub(b, pc))
+						r := sg * rm * d
+						pg := sdf.NewPolygon()
+						pg.AddV2(a)
+						if kind == "Smooth" {
+							pg.AddV2(pc).Smooth(0.1, 3)
+						} else {
+							pg.AddV2(pc).Chamfer(0.1)
+						}
+						pg.AddV2(b).Arc(r, f)
+						pg.AddV2(v2.Vec{X: a.X - 3, Y: a.Y - 6})
+						pg.Close()
+						vs := pg.Vertices()
+						states++
+						mid := mul(add(pc, b), 0.5)
+						ab := unit(sub(b, pc))
+						nrm := v2.Vec{X: ab.Y, Y: -ab.X}
+						h := math.Sqrt(math.Max(0, r*r-d*d/4))
+						ctr := add(mid, mul(nrm, sg*h))
+						tot := 2 * math.Asin(math.Min(1, d/(2*math.Abs(r))))
+						missing := 0
+						for j := 2; j < f; j++ { // interior arc points beyond the first facet (the fillet may cut into that one)
+							ang := -sg * tot * float64(j) / float64(f)
+							q0 := sub(pc, ctr)
+							q := add(ctr, v2.Vec{X: q0.X*math.Cos(ang) - q0.Y*math.Sin(ang), Y: q0.X*math.Sin(ang) + q0.Y*math.Cos(ang)})
+							found := false
+							for _, v := range vs {
+								if norm(sub(v, q)) <= 1e-9*(1+math.Abs(r)) {
+									found = true
+								}
+							}
+							if !found {
+								missing++
+							}
+						}
+						if missing > 0 {
+							c.Violation("Polygon."+kind+"+Arc|arc-after-a-filleted-corner-leaves-its-circle", fmt.Sprintf("%v, %v.%s(0.1), %v.Arc(%g,%d): %d of the arc's interior points are not in the outline %v", a, pc, kind, b, r, f, missing, vs),
+								map[string]any{"a": a, "corner": pc, "b": b, "radius": r, "facets": f, "corner_op": kind})
+						}
+					}
+				}
+			}
+		}
+	}
 	// the arc vertex at every position of a CLOSED polygon (first: the arc runs from the last vertex to the
 	// first; middle; last), third vertex on the side of the chord away from the bulge
 	states += c.ParFor(len(chords), func(i int) {
